@@ -13,6 +13,7 @@ import OmbottModel.Drv.Forms
 import OmbottModel.Drv.RouterEdit
 import OmbottModel.Drv.TsProps
 import OmbottModel.Drv.EnvCache
+import OmbottModel.Drv.App
 /-! Dispatch of a protocol line to the area handlers.  `State` holds the few models that are
 driven as state machines across lines (router, multipart feed, header store). -/
 namespace Drv
@@ -45,6 +46,7 @@ def step (st : State) (line : String) : State × String :=
     | "redit" => pure? (RouterEdit.handle rest)
     | "tsprops" => pure? (TsProps.handle rest)
     | "envcache" => pure? (EnvCache.handle rest)
+    | "app" => pure? (App.handle rest)
     | _ => (st, "bad-op")
 
 end Drv
